@@ -81,6 +81,9 @@ pub(super) struct Sim {
     pub(super) in_flight: Vec<ibc::InFlight>,
     pub(super) packet_seq: u64,
     pub(super) ok: bool,
+    /// validator updates returned by FinalizeBlock per height (CometBFT applies those of height h at h + 2)
+    pub(super) val_updates: BTreeMap<u64, Vec<tendermint::validator::Update>>,
+    pub(super) last_decided_round: u16,
 }
 
 fn short(e: &str) -> String {
@@ -229,14 +232,23 @@ pub(super) struct BlockCtx {
     pub(super) hash: [u8; 32],
     pub(super) txs: Vec<Bytes>,
     pub(super) max_tx_bytes: i64,
+    /// the extended commit of the previous height as the proposer of this round holds it
+    pub(super) eci: abci::types::ExtendedCommitInfo,
 }
 
 impl BlockCtx {
+    fn last_commit(&self) -> CommitInfo {
+        CommitInfo {
+            round: self.eci.round,
+            votes: self.eci.votes.iter().map(|v| abci::types::VoteInfo { validator: v.validator.clone(), sig_info: v.sig_info }).collect(),
+        }
+    }
+
     fn prepare_req(&self) -> abci::request::PrepareProposal {
         abci::request::PrepareProposal {
             max_tx_bytes: self.max_tx_bytes,
             txs: vec![],
-            local_last_commit: Some(abci::types::ExtendedCommitInfo { votes: vec![], round: 0u16.into() }),
+            local_last_commit: Some(self.eci.clone()),
             misbehavior: vec![],
             height: Height::try_from(self.height).unwrap(),
             time: self.time,
@@ -248,7 +260,7 @@ impl BlockCtx {
     fn process_req(&self) -> abci::request::ProcessProposal {
         abci::request::ProcessProposal {
             txs: self.txs.clone(),
-            proposed_last_commit: Some(CommitInfo { votes: vec![], round: 0u16.into() }),
+            proposed_last_commit: Some(self.last_commit()),
             misbehavior: vec![],
             hash: Hash::Sha256(self.hash),
             height: Height::try_from(self.height).unwrap(),
@@ -261,7 +273,7 @@ impl BlockCtx {
     fn finalize_req(&self) -> abci::request::FinalizeBlock {
         abci::request::FinalizeBlock {
             txs: self.txs.clone(),
-            decided_last_commit: CommitInfo { votes: vec![], round: 0u16.into() },
+            decided_last_commit: self.last_commit(),
             misbehavior: vec![],
             hash: Hash::Sha256(self.hash),
             height: Height::try_from(self.height).unwrap(),
@@ -313,6 +325,8 @@ impl Sim {
             all_built: vec![],
             in_flight: vec![],
             packet_seq: 0,
+            val_updates: BTreeMap::new(),
+            last_decided_round: 0,
             ok: true,
         };
         sim.init_chain().await;
@@ -409,7 +423,9 @@ impl Sim {
                 hash: block_hash(hist, height, round, 0),
                 txs: vec![],
                 max_tx_bytes,
+                eci: abci::types::ExtendedCommitInfo { votes: vec![], round: 0u16.into() },
             };
+            ctx.eci = self.make_eci(height, p).await;
             // proposer prepares
             let res = {
                 let node = &mut self.nodes[p];
@@ -511,6 +527,9 @@ impl Sim {
                         "app_hash": vlog::hex(resp.app_hash.as_bytes()), "n_tx_results": resp.tx_results.len(), "n_txs": ctx.txs.len(),
                         "validator_updates": validator_updates_json(&resp.validator_updates)}));
                     responses.push(digest);
+                    if n == 0 {
+                        self.val_updates.insert(height, resp.validator_updates.clone());
+                    }
                     let node = &mut self.nodes[n];
                     node.app.commit(node.storage.clone()).await.expect("commit");
                     let dump = dump_state(&node.storage.latest_snapshot()).await;
@@ -529,6 +548,7 @@ impl Sim {
                 }
             }
         }
+        self.last_decided_round = ctx.round;
         // ---- 4. lab replay of the decided block
         self.current_built = built.clone();
         self.lab_block(&ctx).await;
@@ -569,6 +589,116 @@ impl Sim {
         if self.profile == "ibc" || self.profile == "mixed" {
             self.run_packets().await;
         }
+    }
+
+    /// The extended commit of height - 1 as CometBFT would hand it to the proposer of `height`: votes of the validator set
+    /// in force at height - 1 (genesis set folded with the updates returned up to height - 3), more than 2/3 of the power
+    /// committing, every commit vote carrying a signed oracle vote extension with prices for a random subset of the pairs.
+    async fn make_eci(&mut self, height: u64, node: usize) -> abci::types::ExtendedCommitInfo {
+        use astria_core::generated::price_feed::abci::v2::OracleVoteExtension as RawOracleVoteExtension;
+        use futures::TryStreamExt as _;
+        use prost::Message as _;
+        use tendermint::abci::types::{
+            BlockSignatureInfo::Flag,
+            ExtendedVoteInfo,
+            Validator,
+        };
+        use tendermint::block::BlockIdFlag;
+        use tendermint_proto::v0_38::types::CanonicalVoteExtension;
+
+        use crate::{
+            app::StateReadExt as _,
+            authority::StateReadExt as _,
+            oracles::price_feed::oracle::state_ext::StateReadExt as _,
+        };
+        let empty = abci::types::ExtendedCommitInfo { votes: vec![], round: 0u16.into() };
+        if height < 3 || !matches!(self.profile.as_str(), "paths" | "mixed") {
+            return empty;
+        }
+        let enabled = self.nodes[node].app.vote_extensions_enabled(Height::try_from(height).unwrap()).await.unwrap_or(false);
+        if !enabled {
+            return empty;
+        }
+        let snapshot = self.nodes[node].storage.latest_snapshot();
+        let Ok(chain_id) = snapshot.get_chain_id().await else { return empty };
+        let pairs: Vec<u64> = match snapshot.currency_pairs_with_ids().try_collect::<Vec<_>>().await {
+            Ok(v) => v.into_iter().map(|p| p.id).collect(),
+            Err(_) => vec![],
+        };
+        // CometBFT's validator set at height - 1
+        let mut set: BTreeMap<[u8; 32], u64> = BTreeMap::new();
+        for v in self.uni.genesis_validators() {
+            set.insert(v.verification_key.to_bytes(), u64::from(v.power));
+        }
+        for (h, ups) in &self.val_updates {
+            if h + 3 > height {
+                continue;
+            }
+            for u in ups {
+                let Ok(k) = <[u8; 32]>::try_from(u.pub_key.to_bytes().as_slice()) else { continue };
+                if u.power.value() == 0 {
+                    set.remove(&k);
+                } else {
+                    set.insert(k, u.power.value());
+                }
+            }
+        }
+        let total: u64 = set.values().sum();
+        if total == 0 {
+            return empty;
+        }
+        let round = self.last_decided_round;
+        // who can commit: validators whose key the harness holds and which the application still knows
+        let mut votes = vec![];
+        let mut committed: u64 = 0;
+        let mut plan = vec![];
+        for (vk, power) in &set {
+            let key = self.uni.validators.iter().find(|(a, _)| a.key.verification_key().to_bytes() == *vk).map(|(a, _)| a.key.clone());
+            let addr = astria_core::crypto::VerificationKey::try_from(*vk).map(|k| *k.address_bytes()).unwrap_or([0; 20]);
+            let known_to_app = snapshot.get_validator(&addr).await.ok().flatten().is_some();
+            plan.push((addr, *power, key, known_to_app));
+        }
+        // drop some commit votes while more than 2/3 of the power still commits
+        let can: u64 = plan.iter().filter(|p| p.2.is_some() && p.3).map(|p| p.1).sum();
+        if u128::from(can) * 3 <= u128::from(total) * 2 {
+            self.log.ev(json!({"kind": "eci_fallback", "hist": self.hist, "height": height, "why": "a validator the application no longer knows (or an unknown key) is needed for 2/3"}));
+            return empty;
+        }
+        let mut absent: u64 = 0;
+        for (addr, power, key, known) in plan {
+            let may_skip = u128::from(can - absent - power) * 3 > u128::from(total) * 2;
+            let commit = key.is_some() && known && !(may_skip && self.rng.gen_bool(0.25));
+            if !commit {
+                if key.is_some() && known {
+                    absent += power;
+                }
+                let flag = if self.rng.gen_bool(0.5) { BlockIdFlag::Absent } else { BlockIdFlag::Nil };
+                votes.push(ExtendedVoteInfo { validator: Validator { address: addr, power: (power as u32).into() }, sig_info: Flag(flag), extension_signature: None, vote_extension: Bytes::new() });
+                continue;
+            }
+            let key = key.unwrap();
+            let mut prices: BTreeMap<u64, Bytes> = BTreeMap::new();
+            for id in &pairs {
+                if self.rng.gen_bool(0.8) {
+                    let p: i128 = match self.rng.gen_range(0..8) {
+                        0 => 0,
+                        1 => 1,
+                        2 => i128::from(i64::MAX),
+                        3 => 10i128.pow(30),
+                        4 => -7,
+                        _ => self.rng.gen_range(1..1_000_000_000i128),
+                    };
+                    prices.insert(*id, Bytes::copy_from_slice(&p.to_be_bytes()));
+                }
+            }
+            let ext = RawOracleVoteExtension { prices: prices.into_iter().collect() }.encode_to_vec();
+            let msg = CanonicalVoteExtension { extension: ext.clone(), height: (height - 1) as i64, round: i64::from(round), chain_id: chain_id.to_string() }.encode_length_delimited_to_vec();
+            let sig: tendermint::Signature = key.sign(&msg).to_bytes().to_vec().try_into().unwrap();
+            committed += power;
+            votes.push(ExtendedVoteInfo { validator: Validator { address: addr, power: (power as u32).into() }, sig_info: Flag(BlockIdFlag::Commit), extension_signature: Some(sig), vote_extension: ext.into() });
+        }
+        self.log.ev(json!({"kind": "eci", "hist": self.hist, "height": height, "votes": votes.len(), "committed_power": committed, "total_power": total, "pairs": pairs.len(), "round": round}));
+        abci::types::ExtendedCommitInfo { votes, round: round.into() }
     }
 
     /// Between two heights: deliver IBC packets (incoming transfers; ack / time-out of our own in-flight packets) through
